@@ -135,11 +135,11 @@ Qed.
 
 (** SEARCH (message.evaluateSearchCriteria on the printed program) returns
     exactly the specified sequence numbers *)
-Theorem search_exact ks mb : wf_prog ks = true -> classify ks mb = None ->
+Theorem search_exact ks mb : wf_prog ks = true -> mb_ok mb = true -> classify ks mb = None ->
   search (to_msgs mb) (print_prog ks) = Some (spec_search_list ks mb)
   /\ spec_search ks mb = SOk (spec_search_list ks mb).
 Proof.
-  intros W C. split.
+  intros W Hmb C. split.
   - unfold search, evaluate_search_criteria.
     pose proof (print_not_blank ks mb W C) as NB. destruct (trim_space (print_prog ks)) eqn:E; [congruence|]. clear E NB.
     assert (W' : forallb wf_key ks = true) by (unfold wf_prog in W; now destruct ks).
